@@ -86,14 +86,6 @@ theorem dset_keys (d : List (Str × α)) (k : Str) (v : α) :
         · left; exact h1
         · right; exact ⟨q, by simp [hq], hqk⟩
 
-/-- value of the last assignment to `k` -/
-def lastOcc : List (Str × α) → Str → Option α
-  | [], _ => none
-  | (k', v) :: r, k =>
-    match lastOcc r k with
-    | some x => some x
-    | none => if k' = k then some v else none
-
 theorem dget_foldl_dset (occ : List (Str × α)) (d : List (Str × α)) (k : Str) :
     dget (occ.foldl (fun d p => dset d p.1 p.2) d) k = (lastOcc occ k).or (dget d k) := by
   induction occ generalizing d with
@@ -249,31 +241,43 @@ theorem evalAll_append (env : Env) (l1 l2 : List Expr) :
       | ok v1 =>
         cases evalAll env l2 <;> rfl
 
-theorem evalAll_error (env : Env) (l : List Expr) (x : PErr) (h : evalAll env l = .error x) : x = .evalError := by
+theorem evalAll_error (env : Env) (l : List Expr) (x : PErr) (h : evalAll env l = .error x) :
+    x = .evalError ∧ ∃ e ∈ l, ∃ y, evalExpr env e = .error y := by
   induction l with
   | nil => simp [evalAll] at h
   | cons e es ih =>
     simp only [evalAll] at h
     cases he : evalExpr env e with
-    | error y => rw [he] at h; simp at h; subst h; exact evalExpr_error env e y he
+    | error y =>
+      rw [he] at h; simp at h; subst h
+      exact ⟨evalExpr_error env e y he, e, by simp, y, he⟩
     | ok v =>
       rw [he] at h
       cases hes : evalAll env es with
-      | error y => rw [hes] at h; simp at h; subst h; exact ih hes
+      | error y =>
+        rw [hes] at h; simp at h; subst h
+        obtain ⟨h1, e', he', hy⟩ := ih hes
+        exact ⟨h1, e', by simp [he'], hy⟩
       | ok vs => rw [hes] at h; simp at h
 
-theorem evalKw_error (env : Env) (l : Dict) (x : PErr) (h : evalKw env l = .error x) : x = .evalError := by
+theorem evalKw_error (env : Env) (l : Dict) (x : PErr) (h : evalKw env l = .error x) :
+    x = .evalError ∧ ∃ p ∈ l, ∃ y, evalExpr env p.2 = .error y := by
   induction l with
   | nil => simp [evalKw] at h
   | cons p es ih =>
     obtain ⟨k, e⟩ := p
     simp only [evalKw] at h
     cases he : evalExpr env e with
-    | error y => rw [he] at h; simp at h; subst h; exact evalExpr_error env e y he
+    | error y =>
+      rw [he] at h; simp at h; subst h
+      exact ⟨evalExpr_error env e y he, (k, e), by simp, y, he⟩
     | ok v =>
       rw [he] at h
       cases hes : evalKw env es with
-      | error y => rw [hes] at h; simp at h; subst h; exact ih hes
+      | error y =>
+        rw [hes] at h; simp at h; subst h
+        obtain ⟨h1, p', hp', hy⟩ := ih hes
+        exact ⟨h1, p', by simp [hp'], hy⟩
       | ok vs => rw [hes] at h; simp at h
 
 theorem evalAll_length (env : Env) (l : List Expr) (vs : List Val) (h : evalAll env l = .ok vs) :
@@ -479,6 +483,16 @@ theorem bindKwonly_spec (env : Env) (spec : ArgSpec) :
       | error x => rfl
       | ok vs => rfl
 
+theorem derase_subset (kw : Dict) (a : Str) : ∀ p ∈ derase kw a, p ∈ kw :=
+  fun p hp => (List.mem_filter.1 hp).1
+
+theorem EvalFails.of_derase {env : Env} {kw : Dict} {a : Str} (h : EvalFails env [] (derase kw a)) :
+    EvalFails env [] kw := by
+  obtain ⟨e, hsrc, hy⟩ := h
+  rcases hsrc with h | ⟨k, hk⟩
+  · simp at h
+  · exact ⟨e, Or.inr ⟨k, derase_subset kw a _ hk⟩, hy⟩
+
 /-- the first loop only succeeds on a call that is well-formed for the positional parameters -/
 theorem bindArgs_ok (env : Env) (spec : ArgSpec) :
     ∀ (as : List Str) (pos : List Expr) (kw : Dict) r, bindArgs env spec as pos kw = .ok r →
@@ -545,7 +559,7 @@ theorem bindArgs_ok (env : Env) (spec : ArgSpec) :
 /-- … and when it fails it names a reason that is present -/
 theorem bindArgs_err (env : Env) (spec : ArgSpec) :
     ∀ (as : List Str) (pos : List Expr) (kw : Dict) x, as.Nodup → bindArgs env spec as pos kw = .error x →
-      x = .evalError ∨
+      (x = .evalError ∧ EvalFails env pos kw) ∨
       (x = .bothPosKw ∧ ∃ a ∈ as.take pos.length, dhas kw a = true) ∨
       (x = .missingRequired ∧ ∃ a ∈ as.drop pos.length, dhas kw a = false ∧ hasDefault spec a = false) := by
   intro as
@@ -563,15 +577,17 @@ theorem bindArgs_err (env : Env) (spec : ArgSpec) :
         simp at h; subst h
         right; left; exact ⟨rfl, a, by simp, hka⟩
       · cases he : evalExpr env p with
-        | error y => rw [he] at h; simp at h; subst h; left; exact evalExpr_error _ _ _ he
+        | error y =>
+          rw [he] at h; simp at h; subst h; left
+          exact ⟨evalExpr_error _ _ _ he, p, Or.inl (by simp), _, he⟩
         | ok v =>
           rw [he] at h
           cases hr : bindArgs env spec as ps kw with
           | ok r' => rw [hr] at h; obtain ⟨_, _, _⟩ := r'; simp [consArg] at h
           | error y =>
             rw [hr] at h; simp [consArg] at h; subst h
-            rcases ih ps kw y hnd' hr with h1 | ⟨h1, b, hb, hb2⟩ | ⟨h1, b, hb, hb2⟩
-            · left; exact h1
+            rcases ih ps kw y hnd' hr with ⟨h1, e, hsrc, hy⟩ | ⟨h1, b, hb, hb2⟩ | ⟨h1, b, hb, hb2⟩
+            · left; exact ⟨h1, e, hsrc.imp (fun h => by simp [h]) id, hy⟩
             · right; left; exact ⟨h1, b, by simp [hb], hb2⟩
             · right; right; exact ⟨h1, b, by simpa using hb, hb2⟩
     | nil =>
@@ -580,7 +596,9 @@ theorem bindArgs_err (env : Env) (spec : ArgSpec) :
       | some e =>
         simp only [hg] at h
         cases he : evalExpr env e with
-        | error y => rw [he] at h; simp at h; subst h; left; exact evalExpr_error _ _ _ he
+        | error y =>
+          rw [he] at h; simp at h; subst h; left
+          exact ⟨evalExpr_error _ _ _ he, e, Or.inr ⟨a, dget_mem hg⟩, _, he⟩
         | ok v =>
           rw [he] at h
           cases hr : bindArgs env spec as [] (derase kw a) with
@@ -588,7 +606,7 @@ theorem bindArgs_err (env : Env) (spec : ArgSpec) :
           | error y =>
             rw [hr] at h; simp [consArg] at h; subst h
             rcases ih [] _ y hnd' hr with h1 | ⟨_, b, hb, _⟩ | ⟨h1, b, hb, hb2, hb3⟩
-            · left; exact h1
+            · left; exact ⟨h1.1, h1.2.of_derase⟩
             · simp at hb
             · right; right
               simp at hb
@@ -650,7 +668,7 @@ theorem bindKwonly_ok (env : Env) (spec : ArgSpec) :
 
 theorem bindKwonly_err (env : Env) (spec : ArgSpec) :
     ∀ (as : List Str) (kw : Dict) x, as.Nodup → bindKwonly env spec as kw = .error x →
-      x = .evalError ∨
+      (x = .evalError ∧ EvalFails env [] kw) ∨
       (x = .missingRequiredKw ∧ ∃ a ∈ as, dhas kw a = false ∧ hasDefault spec a = false) := by
   intro as
   induction as with
@@ -664,7 +682,9 @@ theorem bindKwonly_err (env : Env) (spec : ArgSpec) :
     | some e =>
       simp only [hg] at h
       cases he : evalExpr env e with
-      | error y => rw [he] at h; simp at h; subst h; left; exact evalExpr_error _ _ _ he
+      | error y =>
+        rw [he] at h; simp at h; subst h; left
+        exact ⟨evalExpr_error _ _ _ he, e, Or.inr ⟨a, dget_mem hg⟩, _, he⟩
       | ok v =>
         rw [he] at h
         cases hr : bindKwonly env spec as (derase kw a) with
@@ -672,7 +692,7 @@ theorem bindKwonly_err (env : Env) (spec : ArgSpec) :
         | error y =>
           rw [hr] at h; simp [consKw] at h; subst h
           rcases ih _ y hnd' hr with h1 | ⟨h1, b, hb, hb2, hb3⟩
-          · left; exact h1
+          · left; exact ⟨h1.1, h1.2.of_derase⟩
           · right
             refine ⟨h1, b, by simp [hb], ?_, hb3⟩
             rwa [dhas_derase_ne _ _ _ (by intro e; subst e; exact ha hb)] at hb2
@@ -704,12 +724,6 @@ theorem dget_filter_keys (kw : Dict) (f : Str → Bool) (a : Str) :
 
 /-! ### well-formed signatures -/
 
-/-- What `inspect.getfullargspec` guarantees: parameter names are distinct and
-    `kwonlydefaults` only names keyword-only parameters. -/
-def WF (spec : ArgSpec) : Prop := spec.names.Nodup ∧ ∀ a ∈ spec.kwdefaults, a ∈ spec.kwonly
-
-instance (spec : ArgSpec) : Decidable (WF spec) := by unfold WF; infer_instance
-
 theorem WF.args_nodup {spec : ArgSpec} (h : WF spec) : spec.args.Nodup :=
   (List.nodup_append.1 h.1).1
 
@@ -732,5 +746,1378 @@ theorem hasDefault_kwonly {spec : ArgSpec} (h : WF spec) {a : Str} (ha : a ∈ s
   by_cases hk : a ∈ spec.args.drop (spec.args.length - spec.ndefaults)
   · exact (h.disjoint (List.mem_of_mem_drop hk) ha).elim
   · simp [hk]
+
+theorem bindArgs_left_subset (spec : ArgSpec) (env : Env) : ∀ (as : List Str) (pos : List Expr) (kw : Dict) vs l kw',
+    bindArgs env spec as pos kw = .ok (vs, l, kw') → (∀ e ∈ l, e ∈ pos) ∧ (∀ p ∈ kw', p ∈ kw) := by
+  intro as
+  induction as with
+  | nil =>
+    intro pos kw vs l kw' h
+    simp only [bindArgs, Except.ok.injEq, Prod.mk.injEq] at h
+    obtain ⟨_, rfl, rfl⟩ := h
+    exact ⟨fun _ h => h, fun _ h => h⟩
+  | cons a as ih =>
+    intro pos kw vs l kw' h
+    have step : ∀ v (r : Except PErr (List Val × List Expr × Dict)), consArg v r = .ok (vs, l, kw') →
+        ∃ vs', r = .ok (vs', l, kw') := by
+      intro v r hr
+      cases r with
+      | error x => cases hr
+      | ok t =>
+        obtain ⟨a1, a2, a3⟩ := t
+        simp only [consArg, Except.ok.injEq, Prod.mk.injEq] at hr
+        obtain ⟨_, rfl, rfl⟩ := hr
+        exact ⟨a1, rfl⟩
+    cases pos with
+    | cons p ps =>
+      simp only [bindArgs] at h
+      split at h
+      · cases h
+      · cases he : evalExpr env p with
+        | error x => rw [he] at h; cases h
+        | ok v =>
+          rw [he] at h
+          obtain ⟨vs', hr⟩ := step _ _ h
+          obtain ⟨i1, i2⟩ := ih ps kw vs' l kw' hr
+          exact ⟨fun e he' => by simp [i1 e he'], i2⟩
+    | nil =>
+      simp only [bindArgs] at h
+      cases hg : dget kw a with
+      | some e =>
+        simp only [hg] at h
+        cases he : evalExpr env e with
+        | error x => rw [he] at h; cases h
+        | ok v =>
+          rw [he] at h
+          obtain ⟨vs', hr⟩ := step _ _ h
+          obtain ⟨i1, i2⟩ := ih [] _ vs' l kw' hr
+          exact ⟨i1, fun p hp => derase_subset kw a p (i2 p hp)⟩
+      | none =>
+        simp only [hg] at h
+        split at h
+        · obtain ⟨vs', hr⟩ := step _ _ h
+          exact ih [] _ vs' l kw' hr
+        · cases h
+
+theorem bindKwonly_left_subset (spec : ArgSpec) (env : Env) : ∀ (as : List Str) (kw : Dict) vs kw',
+    bindKwonly env spec as kw = .ok (vs, kw') → ∀ p ∈ kw', p ∈ kw := by
+  intro as
+  induction as with
+  | nil =>
+    intro kw vs kw' h
+    simp only [bindKwonly, Except.ok.injEq, Prod.mk.injEq] at h
+    obtain ⟨_, rfl⟩ := h
+    exact fun _ h => h
+  | cons a as ih =>
+    intro kw vs kw' h
+    have step : ∀ v (r : Except PErr (List (Str × Val) × Dict)), consKw a v r = .ok (vs, kw') →
+        ∃ vs', r = .ok (vs', kw') := by
+      intro v r hr
+      cases r with
+      | error x => cases hr
+      | ok t =>
+        obtain ⟨a1, a2⟩ := t
+        simp only [consKw, Except.ok.injEq, Prod.mk.injEq] at hr
+        obtain ⟨_, rfl⟩ := hr
+        exact ⟨a1, rfl⟩
+    simp only [bindKwonly] at h
+    cases hg : dget kw a with
+    | some e =>
+      simp only [hg] at h
+      cases he : evalExpr env e with
+      | error x => rw [he] at h; cases h
+      | ok v =>
+        rw [he] at h
+        obtain ⟨vs', hr⟩ := step _ _ h
+        exact fun p hp => derase_subset kw a p (ih _ vs' kw' hr p hp)
+    | none =>
+      simp only [hg] at h
+      split at h
+      · obtain ⟨vs', hr⟩ := step _ _ h
+        exact ih _ vs' kw' hr
+      · cases h
+
+/-! ### the option loop, provenance, printing-then-parsing (helpers of `Pfb.C15.Props`) -/
+
+
+theorem bindPhase_of_pyBind_ok (env : Env) (spec : ArgSpec) (hwf : WF spec) (pos : List Expr) (kw : Dict)
+    (b : Binding Expr) (h : pyBind spec Expr.dflt pos kw = .ok b) :
+    bindPhase env spec pos kw = evalBinding env spec b := by
+  unfold pyBind at h
+  simp only [] at h
+  split at h
+  · simp at h
+  rename_i c1
+  split at h
+  · simp at h
+  rename_i c2
+  split at h
+  · simp at h
+  rename_i c3
+  split at h
+  · simp at h
+  rename_i c4
+  split at h
+  · simp at h
+  simp only [Except.ok.injEq] at h
+  subst h
+  -- the conditions in usable form
+  have c2' : ∀ a ∈ spec.args.take pos.length, dhas kw a = false := by
+    intro a ha
+    cases hd : dhas kw a with
+    | false => rfl
+    | true => exact absurd (List.any_eq_true.2 ⟨a, ha, hd⟩) c2
+  have c3' : ∀ a ∈ spec.args.drop pos.length, dhas kw a = true ∨ hasDefault spec a = true := by
+    intro a ha
+    rw [hasDefault_arg hwf (List.mem_of_mem_drop ha)]
+    cases hd : dhas kw a with
+    | true => left; rfl
+    | false =>
+      right
+      cases hp : posDefault spec a with
+      | true => rfl
+      | false => exact absurd (List.any_eq_true.2 ⟨a, ha, by simp [hd, hp]⟩) c3
+  have c4' : ∀ a ∈ spec.kwonly, dhas kw a = true ∨ spec.kwdefaults.contains a = true := by
+    intro a ha
+    cases hd : dhas kw a with
+    | true => left; rfl
+    | false =>
+      right
+      cases hp : spec.kwdefaults.contains a with
+      | true => rfl
+      | false => exact absurd (List.any_eq_true.2 ⟨a, ha, by rw [hd, hp]; rfl⟩) c4
+  -- keyword-only parameters are untouched by the first loop
+  have hnotin : ∀ a ∈ spec.kwonly, (spec.args.drop pos.length).contains a = false := by
+    intro a ha
+    cases hc : (spec.args.drop pos.length).contains a with
+    | false => rfl
+    | true => exact (hwf.disjoint (List.mem_of_mem_drop (by simpa using hc)) ha).elim
+  have hdget1 : ∀ a ∈ spec.kwonly,
+      dget (kw.filter (fun p => !(spec.args.drop pos.length).contains p.1)) a = dget kw a := by
+    intro a ha
+    rw [dget_filter_keys kw (fun k => !(spec.args.drop pos.length).contains k) a]
+    simp only [hnotin a ha, Bool.not_false, if_true]
+  have c4'' : ∀ a ∈ spec.kwonly,
+      dhas (kw.filter (fun p => !(spec.args.drop pos.length).contains p.1)) a = true ∨ hasDefault spec a = true := by
+    intro a ha
+    rw [hasDefault_kwonly hwf ha]
+    unfold dhas
+    rw [hdget1 a ha]
+    exact c4' a ha
+  have hkwexprs : argExprs (kw.filter (fun p => !(spec.args.drop pos.length).contains p.1)) spec.kwonly
+      = spec.kwonly.map (fun a => (dget kw a).getD (.dflt a)) := by
+    unfold argExprs
+    apply List.map_congr_left
+    intro a ha
+    rw [hdget1 a ha]
+  have hss : (kw.filter (fun p => !(spec.args.drop pos.length).contains p.1)).filter
+        (fun p => !spec.kwonly.contains p.1) = kw.filter (fun p => !spec.names.contains p.1) := by
+    rw [List.filter_filter]
+    apply List.filter_congr
+    intro p hp
+    have hnt : p.1 ∉ spec.args.take pos.length := by
+      intro hin
+      have := c2' p.1 hin
+      rw [dhas_false_iff] at this
+      exact this p hp rfl
+    have hsplit : p.1 ∈ spec.args ↔ p.1 ∈ spec.args.drop pos.length := by
+      constructor
+      · intro hin
+        rw [← List.take_append_drop pos.length spec.args] at hin
+        rcases List.mem_append.1 hin with h1 | h1
+        · exact absurd h1 hnt
+        · exact h1
+      · exact List.mem_of_mem_drop
+    unfold ArgSpec.names
+    by_cases h1 : p.1 ∈ spec.args
+    · simp [h1, hsplit.1 h1]
+    · have : p.1 ∉ spec.args.drop pos.length := fun hh => h1 (hsplit.2 hh)
+      simp [h1, this]
+  unfold bindPhase evalBinding
+  rw [bindArgs_spec env spec spec.args pos kw hwf.args_nodup c2' c3']
+  unfold argExprs
+  cases hA : evalAll env (pos.take spec.args.length ++
+      (spec.args.drop pos.length).map fun a => (dget kw a).getD (.dflt a)) with
+  | error e => rfl
+  | ok vs =>
+    simp only []
+    rw [bindKwonly_spec env spec spec.kwonly _ hwf.kwonly_nodup c4'', hkwexprs]
+    cases hK : evalAll env (spec.kwonly.map fun a => (dget kw a).getD (.dflt a)) with
+    | error e => rfl
+    | ok ks =>
+      simp only [hss]
+      have hextra : (if (pos.drop spec.args.length).isEmpty then (Except.ok [] : Except PErr (List Val))
+            else if spec.varargs then evalAll env (pos.drop spec.args.length) else .error .tooManyPos)
+          = evalAll env (pos.drop spec.args.length) := by
+        cases hl : pos.drop spec.args.length with
+        | nil => simp [evalAll]
+        | cons x xs =>
+          have hlen : pos.length > spec.args.length := by
+            have : (pos.drop spec.args.length).length > 0 := by rw [hl]; simp
+            simp at this; omega
+          have hv : spec.varargs = true := by
+            cases hv : spec.varargs with
+            | true => rfl
+            | false => exact absurd (by simp [hlen, hv]) c1
+          simp [hv]
+      rw [hextra]
+
+theorem bindPhase_sound (env : Env) (spec : ArgSpec) (hwf : WF spec) (pos : List Expr) (kw : Dict)
+    (hk : KeysOk spec kw) :
+    (∀ r, bindPhase env spec pos kw = .ok r → ∃ b, pyBind spec Expr.dflt pos kw = .ok b) ∧
+    (∀ e, bindPhase env spec pos kw = .error e → Reason env spec pos kw e) := by
+  cases h1 : bindArgs env spec spec.args pos kw with
+  | error x =>
+    constructor
+    · intro r hr; simp [bindPhase, h1] at hr
+    · intro e he
+      simp only [bindPhase, h1] at he
+      simp only [Except.error.injEq] at he
+      subst he
+      rcases bindArgs_err env spec spec.args pos kw x hwf.args_nodup h1 with h | ⟨h, a, ha, hd⟩ | ⟨h, a, ha, hd, hdef⟩
+      · left; exact h
+      · right; left; exact ⟨h, a, ha, hd⟩
+      · right; right; left
+        refine ⟨h, a, ha, hd, ?_⟩
+        rwa [hasDefault_arg hwf (List.mem_of_mem_drop ha)] at hdef
+  | ok r1 =>
+    obtain ⟨c2', c3'⟩ := bindArgs_ok env spec spec.args pos kw r1 h1
+    have hspec := bindArgs_spec env spec spec.args pos kw hwf.args_nodup c2' c3'
+    rw [h1] at hspec
+    cases hA : evalAll env (pos.take spec.args.length ++ argExprs kw (spec.args.drop pos.length)) with
+    | error x => rw [hA] at hspec; simp at hspec
+    | ok vs =>
+      rw [hA] at hspec
+      simp only [Except.ok.injEq] at hspec
+      subst hspec
+      -- facts about the dictionary handed to the second loop
+      have hdget1 : ∀ a ∈ spec.kwonly,
+          dget (kw.filter (fun p => !(spec.args.drop pos.length).contains p.1)) a = dget kw a := by
+        intro a ha
+        have hn : (spec.args.drop pos.length).contains a = false := by
+          cases hc : (spec.args.drop pos.length).contains a with
+          | false => rfl
+          | true => exact (hwf.disjoint (List.mem_of_mem_drop (by simpa using hc)) ha).elim
+        rw [dget_filter_keys kw (fun k => !(spec.args.drop pos.length).contains k) a]
+        simp only [hn, Bool.not_false, if_true]
+      have hdhas1 : ∀ a ∈ spec.kwonly,
+          dhas (kw.filter (fun p => !(spec.args.drop pos.length).contains p.1)) a = dhas kw a := by
+        intro a ha; unfold dhas; rw [hdget1 a ha]
+      -- the pyBind conditions that the first loop established
+      have hc2 : (spec.args.take pos.length).any (fun a => dhas kw a) = false := by
+        cases hh : (spec.args.take pos.length).any (fun a => dhas kw a) with
+        | false => rfl
+        | true =>
+          obtain ⟨a, ha, hd⟩ := List.any_eq_true.1 hh
+          rw [c2' a ha] at hd; simp at hd
+      have hc3 : (spec.args.drop pos.length).any (fun a => !dhas kw a && !posDefault spec a) = false := by
+        cases hh : (spec.args.drop pos.length).any (fun a => !dhas kw a && !posDefault spec a) with
+        | false => rfl
+        | true =>
+          obtain ⟨a, ha, hd⟩ := List.any_eq_true.1 hh
+          have := c3' a ha
+          rw [hasDefault_arg hwf (List.mem_of_mem_drop ha)] at this
+          rcases this with h | h <;> simp [h] at hd
+      have hc5 : (!spec.varkw && kw.any (fun p => !spec.names.contains p.1)) = false := by
+        rcases hk with h | h
+        · simp [h]
+        · cases hh : kw.any (fun p => !spec.names.contains p.1) with
+          | false => simp
+          | true =>
+            obtain ⟨p, hp, hd⟩ := List.any_eq_true.1 hh
+            have := h p hp
+            simp [this] at hd
+      cases h2 : bindKwonly env spec spec.kwonly
+          (kw.filter (fun p => !(spec.args.drop pos.length).contains p.1)) with
+      | error x =>
+        constructor
+        · intro r hr; simp only [bindPhase, h1, h2] at hr; cases hr
+        · intro e he
+          simp only [bindPhase, h1, h2] at he
+          simp only [Except.error.injEq] at he
+          subst he
+          rcases bindKwonly_err env spec spec.kwonly _ x hwf.kwonly_nodup h2 with h | ⟨h, a, ha, hd, hdef⟩
+          · left
+            obtain ⟨h1, e, hsrc, hy⟩ := h
+            rcases hsrc with hh | ⟨k, hk⟩
+            · simp at hh
+            · exact ⟨h1, e, Or.inr ⟨k, (List.mem_filter.1 hk).1⟩, hy⟩
+          · right; right; right; left
+            refine ⟨h, a, ha, ?_, ?_⟩
+            · rwa [hdhas1 a ha] at hd
+            · rwa [hasDefault_kwonly hwf ha] at hdef
+      | ok r2 =>
+        have c4' := bindKwonly_ok env spec spec.kwonly _ r2 h2
+        have hc4 : spec.kwonly.any (fun a => !dhas kw a && !spec.kwdefaults.contains a) = false := by
+          cases hh : spec.kwonly.any (fun a => !dhas kw a && !spec.kwdefaults.contains a) with
+          | false => rfl
+          | true =>
+            obtain ⟨a, ha, hd⟩ := List.any_eq_true.1 hh
+            have := c4' a ha
+            rw [hdhas1 a ha, hasDefault_kwonly hwf ha] at this
+            rcases this with h | h
+            · rw [h] at hd; simp at hd
+            · rw [h] at hd; simp at hd
+        obtain ⟨kvs, kw2⟩ := r2
+        have hsub2 : ∀ p ∈ kw2, p ∈ kw := fun p hp =>
+          (List.mem_filter.1 (bindKwonly_left_subset spec env spec.kwonly _ kvs kw2 h2 p hp)).1
+        have hkwfail : ∀ x, evalKw env kw2 = .error x → x = .evalError ∧ EvalFails env pos kw := by
+          intro x hx
+          obtain ⟨h1, p, hp, hy⟩ := evalKw_error env kw2 x hx
+          exact ⟨h1, p.2, Or.inr ⟨p.1, hsub2 p hp⟩, hy⟩
+        by_cases hl : (pos.drop spec.args.length).isEmpty = true
+        · -- no extra positional arguments
+          have hc1 : (decide (pos.length > spec.args.length) && !spec.varargs) = false := by
+            have : pos.length ≤ spec.args.length := by
+              have := List.isEmpty_iff.1 hl
+              have h3 := congrArg List.length this
+              simp at h3; omega
+            simp; intro h; omega
+          constructor
+          · intro r _
+            unfold pyBind
+            simp only [hc1, hc2, hc3, hc4, hc5]
+            exact ⟨_, rfl⟩
+          · intro e he
+            simp only [bindPhase, h1, h2, hl, if_true] at he
+            cases hR : evalKw env kw2 with
+            | error x => rw [hR] at he; simp at he; subst he; left; exact hkwfail _ hR
+            | ok rest => rw [hR] at he; simp at he
+        · by_cases hv : spec.varargs = true
+          · have hc1 : (decide (pos.length > spec.args.length) && !spec.varargs) = false := by simp [hv]
+            constructor
+            · intro r _
+              unfold pyBind
+              simp only [hc1, hc2, hc3, hc4, hc5]
+              exact ⟨_, rfl⟩
+            · intro e he
+              simp only [bindPhase, h1, h2, hl, hv, if_true] at he
+              cases hS : evalAll env (pos.drop spec.args.length) with
+              | error x =>
+                rw [hS] at he; simp at he; subst he; left
+                obtain ⟨h1, e', he', hy⟩ := evalAll_error env _ _ hS
+                exact ⟨h1, e', Or.inl (List.mem_of_mem_drop he'), hy⟩
+              | ok xs =>
+                rw [hS] at he
+                cases hR : evalKw env kw2 with
+                | error x => rw [hR] at he; simp at he; subst he; left; exact hkwfail _ hR
+                | ok rest => rw [hR] at he; simp at he
+          · have hl' : (pos.drop spec.args.length).isEmpty = false := by
+              cases hh : (pos.drop spec.args.length).isEmpty with
+              | false => rfl
+              | true => exact absurd hh hl
+            have hv' : spec.varargs = false := by
+              cases hh : spec.varargs with
+              | false => rfl
+              | true => exact absurd hh hv
+            constructor
+            · intro r hr
+              simp only [bindPhase, h1, h2, hl', hv', Bool.false_eq_true, if_false] at hr
+              cases hr
+            · intro e he
+              simp only [bindPhase, h1, h2, hl', hv', Bool.false_eq_true, if_false] at he
+              simp only [Except.error.injEq] at he
+              subst he
+              right; right; right; right
+              refine ⟨rfl, ?_, by simpa using hv⟩
+              have : pos.drop spec.args.length ≠ [] := by
+                intro h; exact hl (by simp [h])
+              have h3 : (pos.drop spec.args.length).length > 0 := List.length_pos_iff.2 this
+              simp at h3; omega
+
+theorem resolveOpt_bound (env : Env) (spec : ArgSpec) (n : Str) (eq : Bool) (m : Str)
+    (h : resolveOpt env spec n eq = .bound m) : m ∈ spec.names ∨ spec.varkw = true := by
+  unfold resolveOpt at h
+  simp only [] at h
+  split at h
+  · rename_i m' hms
+    simp only [Res.bound.injEq] at h
+    subst h
+    left
+    split at hms
+    · rename_i hc
+      simp only [List.cons.injEq, and_true] at hms
+      subst hms
+      simp only [Bool.and_eq_true] at hc
+      have : n ∈ matched spec n := by simpa using hc.2
+      exact (List.mem_filter.1 this).1
+    · have : m' ∈ matched spec n := by rw [hms]; simp
+      exact (List.mem_filter.1 this).1
+  · split at h
+    · cases h
+    · split at h
+      · cases h
+      · split at h
+        · rename_i hv; right; exact hv
+        · cases h
+  · cases h
+
+theorem optName_bound (env : Env) (spec : ArgSpec) (n : Str) (eq : Bool) (m : Str)
+    (h : optName env spec n eq = .ok m) : m ∈ spec.names ∨ spec.varkw = true := by
+  unfold optName at h
+  split at h
+  · cases h
+  · split at h
+    · cases h
+    · cases h
+    · cases h
+    · rename_i m' hres
+      simp only [Except.ok.injEq] at h; subst h
+      exact resolveOpt_bound env spec _ _ _ hres
+
+theorem addPos_ok {e : Expr} {r : Except PErr Scanned} {p occ} (h : addPos e r = .ok (p, occ)) :
+    ∃ p', r = .ok (p', occ) ∧ p = e :: p' := by
+  cases r with
+  | error x => cases h
+  | ok r =>
+    obtain ⟨p', k'⟩ := r
+    simp only [addPos, Except.ok.injEq, Prod.mk.injEq] at h
+    exact ⟨p', by rw [h.2], h.1.symm⟩
+
+theorem addKw_ok {m : Str} {e : Expr} {r : Except PErr Scanned} {p occ} (h : addKw m e r = .ok (p, occ)) :
+    ∃ k', r = .ok (p, k') ∧ occ = (m, e) :: k' := by
+  cases r with
+  | error x => cases h
+  | ok r =>
+    obtain ⟨p', k'⟩ := r
+    simp only [addKw, Except.ok.injEq, Prod.mk.injEq] at h
+    exact ⟨k', by rw [h.1], h.2.symm⟩
+
+theorem scan_keys (env : Env) (spec : ArgSpec) (mode : Mode) :
+    ∀ (argv : List Str) (stdin : Str) (pending : Option Str) p occ,
+      (∀ nm, pending = some nm → nm ∈ spec.names ∨ spec.varkw = true) →
+      scan env spec mode argv stdin pending = .ok (p, occ) →
+      ∀ q ∈ occ, q.1 ∈ spec.names ∨ spec.varkw = true := by
+  intro argv
+  induction argv with
+  | nil =>
+    intro stdin pending p occ _ h
+    cases pending with
+    | some nm => simp [scan] at h
+    | none => simp [scan] at h; simp [h.2]
+  | cons arg rest ih =>
+    intro stdin pending p occ hp h
+    cases pending with
+    | some nm =>
+      simp only [scan] at h
+      split at h
+      · cases h
+      · obtain ⟨k', hr, rfl⟩ := addKw_ok h
+        intro q hq
+        simp at hq
+        rcases hq with rfl | hq
+        · exact hp nm rfl
+        · exact ih stdin none p k' (by simp) hr q hq
+    | none =>
+      simp only [scan] at h
+      split at h
+      · cases h
+      · cases h
+      · obtain ⟨p', hr, _⟩ := addPos_ok h
+        exact ih [] none p' occ (by simp) hr
+      · simp only [Except.ok.injEq, Prod.mk.injEq] at h
+        simp [← h.2]
+      · rename_i n eq v _
+        split at h
+        · cases h
+        · rename_i m hm
+          have hm' := optName_bound env spec n eq m hm
+          split at h
+          · exact ih stdin (some m) p occ (by intro nm hnm; cases hnm; exact hm') h
+          · obtain ⟨k', hr, rfl⟩ := addKw_ok h
+            intro q hq
+            simp at hq
+            rcases hq with rfl | hq
+            · exact hm'
+            · exact ih stdin none p k' (by simp) hr q hq
+      · obtain ⟨p', hr, _⟩ := addPos_ok h
+        exact ih stdin none p' occ (by simp) hr
+
+theorem FromArgv.cons {argv : List Str} {sin sin' s : Str} (a : Str) (h : FromArgv argv sin' s)
+    (hs : sin' = sin ∨ sin' = []) : FromArgv (a :: argv) sin s := by
+  rcases h with h | ⟨x, hx, pre, h1, h2⟩ | h | h
+  · left; simp [h]
+  · right; left; exact ⟨x, by simp [hx], pre, h1, h2⟩
+  · rcases hs with hs | hs
+    · right; right; left; rw [h, hs]
+    · right; right; right; rw [h, hs]
+  · right; right; right; exact h
+
+/-- an expression built by the option loop: an original string, in the given mode or as a literal -/
+def ExprFrom (argv : List Str) (stdin : Str) (mode : Mode) (e : Expr) : Prop :=
+  ∃ s m, e = .user s m ∧ FromArgv argv stdin s ∧ (m = mode ∨ m = .string)
+
+theorem ExprFrom.cons {argv : List Str} {sin sin' : Str} {mode : Mode} {e : Expr} (a : Str)
+    (h : ExprFrom argv sin' mode e) (hs : sin' = sin ∨ sin' = []) : ExprFrom (a :: argv) sin mode e := by
+  obtain ⟨s, m, h1, h2, h3⟩ := h
+  exact ⟨s, m, h1, h2.cons a hs, h3⟩
+
+theorem partitionEq_spec : ∀ (b n0 v : Str) (eq : Bool), partitionEq b = (n0, eq, v) →
+    '=' ∉ n0 ∧ (eq = true → b = n0 ++ '=' :: v) ∧ (eq = false → b = n0 ∧ v = []) := by
+  intro b
+  induction b with
+  | nil => intro n0 v eq h; simp [partitionEq] at h; obtain ⟨rfl, rfl, rfl⟩ := h; simp
+  | cons c cs ih =>
+    intro n0 v eq h
+    simp only [partitionEq] at h
+    split at h
+    · rename_i hc
+      simp only [Prod.mk.injEq] at h
+      obtain ⟨rfl, rfl, rfl⟩ := h
+      simp [hc]
+    · rename_i hc
+      simp only [Prod.mk.injEq] at h
+      obtain ⟨rfl, rfl, rfl⟩ := h
+      obtain ⟨i1, i2, i3⟩ := ih _ _ _ rfl
+      refine ⟨?_, ?_, ?_⟩
+      · simp; exact ⟨fun h => hc h.symm, i1⟩
+      · intro he; exact congrArg (c :: ·) (i2 he)
+      · intro he; exact ⟨congrArg (c :: ·) (i3 he).1, (i3 he).2⟩
+
+theorem partitionEq_append (t v : Str) (h : '=' ∉ t) : partitionEq (t ++ '=' :: v) = (t, true, v) := by
+  induction t with
+  | nil => simp [partitionEq]
+  | cons c cs ih =>
+    simp at h
+    have hc : c ≠ '=' := fun e => h.1 e.symm
+    simp [partitionEq, hc, ih h.2]
+
+theorem partitionEq_noeq (t : Str) (h : '=' ∉ t) : partitionEq t = (t, false, []) := by
+  induction t with
+  | nil => simp [partitionEq]
+  | cons c cs ih =>
+    simp at h
+    have hc : c ≠ '=' := fun e => h.1 e.symm
+    simp [partitionEq, hc, ih h.2]
+
+/-- An option token is `-`/`--`, a name without `=`, and — when `=` is present — the exact value text. -/
+theorem classify_opt (arg n v : Str) (eq : Bool) (h : classify arg = .opt n eq v) :
+    ∃ d n0, (d = ['-','-'] ∨ d = ['-']) ∧ n = dashToUnderscore n0 ∧ '=' ∉ n0 ∧
+      (eq = true → arg = d ++ n0 ++ '=' :: v) ∧ (eq = false → arg = d ++ n0 ∧ v = []) := by
+  unfold classify at h
+  split at h
+  · cases h
+  split at h
+  · cases h
+  split at h
+  · rename_i hd
+    split at h
+    · cases h
+    split at h
+    · cases h
+    split at h
+    rename_i n0 e v' hp
+    simp only [Tok.opt.injEq] at h
+    obtain ⟨rfl, rfl, rfl⟩ := h
+    obtain ⟨i1, i2, i3⟩ := partitionEq_spec _ _ _ _ hp
+    by_cases hdd : (['-','-'] : Str).isPrefixOf arg = true
+    · simp only [hdd, if_true] at i2 i3
+      have harg : arg = ['-','-'] ++ arg.drop 2 := by
+        have := List.prefix_iff_eq_append.1 (List.isPrefixOf_iff_prefix.1 hdd)
+        simpa using this.symm
+      refine ⟨['-','-'], n0, Or.inl rfl, rfl, i1, ?_, ?_⟩
+      · intro he; rw [List.append_assoc, ← i2 he]; exact harg
+      · intro he; rw [← (i3 he).1]; exact ⟨harg, (i3 he).2⟩
+    · simp only [hdd] at i2 i3
+      have harg : arg = ['-'] ++ arg.drop 1 := by
+        have := List.prefix_iff_eq_append.1 (List.isPrefixOf_iff_prefix.1 hd)
+        simpa using this.symm
+      refine ⟨['-'], n0, Or.inr rfl, rfl, i1, ?_, ?_⟩
+      · intro he; rw [List.append_assoc, ← i2 he]; exact harg
+      · intro he; rw [← (i3 he).1]; exact ⟨harg, (i3 he).2⟩
+  · cases h
+
+theorem scan_exprs (env : Env) (spec : ArgSpec) (mode : Mode) :
+    ∀ (argv : List Str) (stdin : Str) (pending : Option Str) p occ,
+      scan env spec mode argv stdin pending = .ok (p, occ) →
+      (∀ e ∈ p, ExprFrom argv stdin mode e) ∧ (∀ q ∈ occ, ExprFrom argv stdin mode q.2) := by
+  intro argv
+  induction argv with
+  | nil =>
+    intro stdin pending p occ h
+    cases pending with
+    | some nm => simp [scan] at h
+    | none => simp [scan] at h; simp [h.1, h.2]
+  | cons arg rest ih =>
+    intro stdin pending p occ h
+    have self_pos : ∀ m, (m = mode ∨ m = Mode.string) → ExprFrom (arg :: rest) stdin mode (.user arg m) :=
+      fun m hm => ⟨arg, m, rfl, Or.inl (by simp), hm⟩
+    cases pending with
+    | some nm =>
+      simp only [scan] at h
+      split at h
+      · cases h
+      · obtain ⟨k', hr, rfl⟩ := addKw_ok h
+        obtain ⟨i1, i2⟩ := ih stdin none p k' hr
+        refine ⟨fun e he => (i1 e he).cons arg (Or.inl rfl), ?_⟩
+        intro q hq
+        simp at hq
+        rcases hq with rfl | hq
+        · exact self_pos mode (Or.inl rfl)
+        · exact (i2 q hq).cons arg (Or.inl rfl)
+    | none =>
+      simp only [scan] at h
+      split at h
+      · cases h
+      · cases h
+      · obtain ⟨p', hr, rfl⟩ := addPos_ok h
+        obtain ⟨i1, i2⟩ := ih [] none p' occ hr
+        refine ⟨?_, fun q hq => (i2 q hq).cons arg (Or.inr rfl)⟩
+        intro e he
+        simp at he
+        rcases he with rfl | he
+        · exact ⟨stdin, .string, rfl, Or.inr (Or.inr (Or.inl rfl)), Or.inr rfl⟩
+        · exact (i1 e he).cons arg (Or.inr rfl)
+      · simp only [Except.ok.injEq, Prod.mk.injEq] at h
+        obtain ⟨rfl, rfl⟩ := h
+        refine ⟨?_, by simp⟩
+        intro e he
+        simp at he
+        obtain ⟨x, hx, rfl⟩ := he
+        exact ⟨x, .string, rfl, Or.inl (by simp [hx]), Or.inr rfl⟩
+      · rename_i n eq v hcl
+        split at h
+        · cases h
+        · rename_i m hm
+          split at h
+          · obtain ⟨i1, i2⟩ := ih stdin (some m) p occ h
+            exact ⟨fun e he => (i1 e he).cons arg (Or.inl rfl), fun q hq => (i2 q hq).cons arg (Or.inl rfl)⟩
+          · rename_i hv
+            obtain ⟨k', hr, rfl⟩ := addKw_ok h
+            obtain ⟨i1, i2⟩ := ih stdin none p k' hr
+            refine ⟨fun e he => (i1 e he).cons arg (Or.inl rfl), ?_⟩
+            intro q hq
+            simp at hq
+            rcases hq with rfl | hq
+            · obtain ⟨d, n0, hd, _, hn0, he1, he2⟩ := classify_opt arg n v eq hcl
+              cases eq with
+              | false => exact absurd (he2 rfl).2 (by simpa using hv)
+              | true =>
+                refine ⟨v, mode, rfl, Or.inr (Or.inl ⟨arg, by simp, d ++ n0, he1 rfl, ?_⟩), Or.inl rfl⟩
+                rcases hd with rfl | rfl <;> simpa using hn0
+            · exact (i2 q hq).cons arg (Or.inl rfl)
+      · obtain ⟨p', hr, rfl⟩ := addPos_ok h
+        obtain ⟨i1, i2⟩ := ih stdin none p' occ hr
+        refine ⟨?_, fun q hq => (i2 q hq).cons arg (Or.inl rfl)⟩
+        intro e he
+        simp at he
+        rcases he with rfl | he
+        · exact self_pos mode (Or.inl rfl)
+        · exact (i1 e he).cons arg (Or.inl rfl)
+
+theorem pyBind_ok_fields {α : Type} (spec : ArgSpec) (dflt : Str → α) (pos : List α) (kw : List (Str × α))
+    (b : Binding α) (h : pyBind spec dflt pos kw = .ok b) :
+    b.args = pos.take spec.args.length ++ (spec.args.drop pos.length).map (fun a => (dget kw a).getD (dflt a)) ∧
+    b.star = pos.drop spec.args.length ∧
+    b.kwonly = spec.kwonly.map (fun a => (dget kw a).getD (dflt a)) ∧
+    b.starstar = kw.filter (fun p => !spec.names.contains p.1) := by
+  unfold pyBind at h
+  simp only [] at h
+  split at h
+  · cases h
+  split at h
+  · cases h
+  split at h
+  · cases h
+  split at h
+  · cases h
+  split at h
+  · cases h
+  simp only [Except.ok.injEq] at h
+  subst h
+  exact ⟨rfl, rfl, rfl, rfl⟩
+
+theorem evalAll_lits (env : Env) (l : List Str) :
+    evalAll env (l.map (fun x => Expr.user x .string)) = .ok (l.map Val.raw) := by
+  induction l with
+  | nil => simp [evalAll]
+  | cons x xs ih => simp [evalAll, evalExpr, ih]
+
+theorem evalAll_append_ok {env : Env} {l1 l2 : List Expr} {vs : List Val} (h : evalAll env (l1 ++ l2) = .ok vs) :
+    ∃ v1 v2, evalAll env l1 = .ok v1 ∧ evalAll env l2 = .ok v2 ∧ vs = v1 ++ v2 := by
+  rw [evalAll_append] at h
+  cases h1 : evalAll env l1 with
+  | error e => rw [h1] at h; cases h
+  | ok v1 =>
+    rw [h1] at h
+    cases h2 : evalAll env l2 with
+    | error e => rw [h2] at h; cases h
+    | ok v2 =>
+      rw [h2] at h
+      simp only [Except.ok.injEq] at h
+      exact ⟨v1, v2, rfl, rfl, h.symm⟩
+
+/-- the pieces of a successful delivery -/
+theorem evalBinding_ok {env : Env} {spec : ArgSpec} {b : Binding Expr} {a : List Val} {k : List (Str × Val)}
+    (h : evalBinding env spec b = .ok (a, k)) :
+    ∃ va vk vs ss, evalAll env b.args = .ok va ∧ evalAll env b.kwonly = .ok vk ∧ evalAll env b.star = .ok vs ∧
+      evalKw env b.starstar = .ok ss ∧ a = va ++ vs ∧ k = spec.kwonly.zip vk ++ ss := by
+  unfold evalBinding at h
+  cases h1 : evalAll env b.args with
+  | error e => rw [h1] at h; cases h
+  | ok va =>
+    rw [h1] at h
+    cases h2 : evalAll env b.kwonly with
+    | error e => rw [h2] at h; cases h
+    | ok vk =>
+      rw [h2] at h
+      cases h3 : evalAll env b.star with
+      | error e => rw [h3] at h; cases h
+      | ok vs =>
+        rw [h3] at h
+        cases h4 : evalKw env b.starstar with
+        | error e => rw [h4] at h; cases h
+        | ok ss =>
+          rw [h4] at h
+          simp only [Except.ok.injEq, Prod.mk.injEq] at h
+          exact ⟨va, vk, vs, ss, rfl, rfl, rfl, rfl, h.1.symm, h.2.symm⟩
+
+/-- a successful binding phase went through Python's binding -/
+theorem bindPhase_ok_binding (env : Env) (spec : ArgSpec) (hwf : WF spec) (pos : List Expr) (kw : Dict)
+    (hk : KeysOk spec kw) (r : Delivered) (h : bindPhase env spec pos kw = .ok r) :
+    ∃ b, pyBind spec Expr.dflt pos kw = .ok b ∧ evalBinding env spec b = .ok r := by
+  obtain ⟨b, hb⟩ := (bindPhase_sound env spec hwf pos kw hk).1 r h
+  exact ⟨b, hb, by rw [← bindPhase_of_pyBind_ok env spec hwf pos kw b hb, h]⟩
+
+/-- The positional command-line arguments arrive first, in order, each evaluated on its own. -/
+theorem delivered_positional (env : Env) (spec : ArgSpec) (hwf : WF spec) (pos : List Expr) (kw : Dict)
+    (hk : KeysOk spec kw) (a : List Val) (k : List (Str × Val)) (h : bindPhase env spec pos kw = .ok (a, k)) :
+    ∃ vs tail, evalAll env pos = .ok vs ∧ a = vs ++ tail := by
+  obtain ⟨b, hb, he⟩ := bindPhase_ok_binding env spec hwf pos kw hk _ h
+  obtain ⟨f1, f2, _, _⟩ := pyBind_ok_fields spec Expr.dflt pos kw b hb
+  obtain ⟨va, vk, vs, ss, h1, _, h3, _, rfl, _⟩ := evalBinding_ok he
+  rw [f1] at h1
+  rw [f2] at h3
+  obtain ⟨v1, v2, e1, e2, rfl⟩ := evalAll_append_ok h1
+  by_cases hl : pos.length ≤ spec.args.length
+  · rw [List.take_of_length_le hl] at e1
+    rw [List.drop_of_length_le hl] at h3
+    simp [evalAll] at h3
+    subst h3
+    exact ⟨v1, v2, e1, by simp⟩
+  · have hl' : spec.args.length ≤ pos.length := by omega
+    rw [List.drop_of_length_le hl'] at e2
+    simp [evalAll] at e2
+    subst e2
+    refine ⟨v1 ++ vs, [], ?_, by simp⟩
+    have : pos = pos.take spec.args.length ++ pos.drop spec.args.length := (List.take_append_drop _ _).symm
+    rw [this, evalAll_append, e1, h3]
+
+theorem dset_mem {α : Type} (d : List (Str × α)) (k : Str) (v : α) :
+    ∀ p ∈ dset d k v, p = (k, v) ∨ p ∈ d := by
+  induction d with
+  | nil => intro p hp; simp [dset] at hp; left; exact hp
+  | cons q r ih =>
+    obtain ⟨k', v'⟩ := q
+    intro p hp
+    by_cases h : k' = k
+    · simp [dset, h] at hp
+      rcases hp with rfl | hp
+      · left; rfl
+      · right; simp [hp]
+    · simp [dset, h] at hp
+      rcases hp with rfl | hp
+      · right; simp
+      · rcases ih p hp with h1 | h1
+        · left; exact h1
+        · right; simp [h1]
+
+theorem foldl_dset_mem {α : Type} (occ : List (Str × α)) (d : List (Str × α)) :
+    ∀ p ∈ occ.foldl (fun d p => dset d p.1 p.2) d, p ∈ occ ∨ p ∈ d := by
+  induction occ generalizing d with
+  | nil => intro p hp; right; exact hp
+  | cons q r ih =>
+    intro p hp
+    simp only [List.foldl_cons] at hp
+    rcases ih _ p hp with h | h
+    · left; simp [h]
+    · rcases dset_mem d q.1 q.2 p h with h1 | h1
+      · left; simp [h1]
+      · right; exact h1
+
+/-- every entry of the keyword dictionary is one of the assignments -/
+theorem dictOf_mem {α : Type} (occ : List (Str × α)) : ∀ p ∈ dictOf occ, p ∈ occ := by
+  intro p hp
+  rcases foldl_dset_mem occ [] p hp with h | h
+  · exact h
+  · simp at h
+
+/-- Every delivered value is the evaluation of one command-line expression, or a parameter's default. -/
+theorem delivered_sources (env : Env) (spec : ArgSpec) (hwf : WF spec) (pos : List Expr) (kw : Dict)
+    (hk : KeysOk spec kw) (a : List Val) (k : List (Str × Val)) (h : bindPhase env spec pos kw = .ok (a, k)) :
+    ∀ v ∈ a ++ k.map (·.2),
+      (∃ e, (e ∈ pos ∨ ∃ key, (key, e) ∈ kw) ∧ evalExpr env e = .ok v) ∨ (∃ n ∈ spec.names, v = .dflt n) := by
+  obtain ⟨b, hb, he⟩ := bindPhase_ok_binding env spec hwf pos kw hk _ h
+  obtain ⟨f1, f2, f3, f4⟩ := pyBind_ok_fields spec Expr.dflt pos kw b hb
+  obtain ⟨va, vk, vs, ss, h1, h2, h3, h4, rfl, rfl⟩ := evalBinding_ok he
+  -- an expression chosen for a parameter
+  have chosen : ∀ (names : List Str), (∀ n ∈ names, n ∈ spec.names) →
+      ∀ e ∈ names.map (fun a => (dget kw a).getD (Expr.dflt a)), ∀ v, evalExpr env e = .ok v →
+      (∃ e, (e ∈ pos ∨ ∃ key, (key, e) ∈ kw) ∧ evalExpr env e = .ok v) ∨ (∃ n ∈ spec.names, v = .dflt n) := by
+    intro names hn e he v hv
+    obtain ⟨n, hn', rfl⟩ := List.mem_map.1 he
+    cases hg : dget kw n with
+    | some e' =>
+      rw [hg] at hv
+      left; exact ⟨e', Or.inr ⟨n, dget_mem hg⟩, hv⟩
+    | none =>
+      rw [hg] at hv
+      simp [evalExpr] at hv
+      right; exact ⟨n, hn n hn', hv.symm⟩
+  intro v hv
+  simp only [List.mem_append, List.mem_map] at hv
+  rcases hv with (hv | hv) | ⟨q, hq, rfl⟩
+  · obtain ⟨e, he, hev⟩ := evalAll_mem env _ _ h1 v hv
+    rw [f1] at he
+    rcases List.mem_append.1 he with he | he
+    · left; exact ⟨e, Or.inl (List.mem_of_mem_take he), hev⟩
+    · exact chosen _ (fun n hn => by
+        unfold ArgSpec.names; exact List.mem_append_left _ (List.mem_of_mem_drop hn)) e he v hev
+  · obtain ⟨e, he, hev⟩ := evalAll_mem env _ _ h3 v hv
+    rw [f2] at he
+    left; exact ⟨e, Or.inl (List.mem_of_mem_drop he), hev⟩
+  · rcases hq with hq | hq
+    · have hq2 : q.2 ∈ vk := (List.of_mem_zip hq).2
+      obtain ⟨e, he, hev⟩ := evalAll_mem env _ _ h2 q.2 hq2
+      rw [f3] at he
+      exact chosen _ (fun n hn => by unfold ArgSpec.names; exact List.mem_append_right _ hn) e he _ hev
+    · obtain ⟨p, hp, _, hev⟩ := evalKw_mem env _ _ h4 q hq
+      rw [f4] at hp
+      left; exact ⟨p.2, Or.inr ⟨p.1, (List.mem_filter.1 hp).1⟩, hev⟩
+
+theorem scan_keysOk (env : Env) (spec : ArgSpec) (mode : Mode) (argv : List Str) (stdin : Str) p occ
+    (h : scan env spec mode argv stdin none = .ok (p, occ)) : KeysOk spec (dictOf occ) := by
+  have hk := scan_keys env spec mode argv stdin none p occ (by simp) h
+  cases hv : spec.varkw with
+  | true => left; exact hv
+  | false =>
+    right
+    intro q hq
+    rcases hk q (dictOf_mem occ q hq) with h1 | h1
+    · exact h1
+    · rw [hv] at h1; cases h1
+
+theorem parse_ok {env : Env} {spec : ArgSpec} {argv : List Str} {stdin : Str} {mode : Mode} {r : Delivered}
+    (h : parseAutoApply env spec argv stdin mode = .ok r) :
+    ∃ p occ, scan env spec mode argv stdin none = .ok (p, occ) ∧ bindPhase env spec p (dictOf occ) = .ok r := by
+  unfold parseAutoApply at h
+  cases hs : scan env spec mode argv stdin none with
+  | error e => rw [hs] at h; cases h
+  | ok s =>
+    obtain ⟨p, occ⟩ := s
+    rw [hs] at h
+    exact ⟨p, occ, rfl, h⟩
+
+theorem scan_env_indep (e1 e2 : Env) (hs : SameSyntax e1 e2) (spec : ArgSpec) (mode : Mode) :
+    ∀ (argv : List Str) (stdin : Str) (pending : Option Str),
+      scan e1 spec mode argv stdin pending = scan e2 spec mode argv stdin pending := by
+  have hopt : ∀ n eq, optName e1 spec n eq = optName e2 spec n eq := by
+    intro n eq; simp only [optName, resolveOpt, hs.1, hs.2]
+  intro argv
+  induction argv with
+  | nil => intro stdin pending; cases pending <;> simp [scan]
+  | cons arg rest ih =>
+    intro stdin pending
+    cases pending with
+    | some nm => simp only [scan, ih]
+    | none =>
+      simp only [scan]
+      cases classify arg with
+      | help => rfl
+      | source => rfl
+      | stdin => simp only [ih]
+      | dashdash => rfl
+      | opt n eq v => simp only [hopt, ih]
+      | pos => simp only [ih]
+
+section congr
+variable (e1 e2 : Env) (spec : ArgSpec)
+
+theorem evalAll_congr (l : List Expr) (h : ∀ e ∈ l, evalExpr e1 e = evalExpr e2 e) : evalAll e1 l = evalAll e2 l := by
+  induction l with
+  | nil => rfl
+  | cons x xs ih =>
+    simp only [evalAll, h x (by simp), ih (fun e he => h e (by simp [he]))]
+
+theorem evalKw_congr (l : Dict) (h : ∀ p ∈ l, evalExpr e1 p.2 = evalExpr e2 p.2) : evalKw e1 l = evalKw e2 l := by
+  induction l with
+  | nil => rfl
+  | cons x xs ih =>
+    obtain ⟨k, e⟩ := x
+    simp only [evalKw, h (k, e) (by simp), ih (fun p hp => h p (by simp [hp]))]
+
+theorem bindArgs_congr : ∀ (as : List Str) (pos : List Expr) (kw : Dict),
+    (∀ e ∈ pos, evalExpr e1 e = evalExpr e2 e) → (∀ p ∈ kw, evalExpr e1 p.2 = evalExpr e2 p.2) →
+    bindArgs e1 spec as pos kw = bindArgs e2 spec as pos kw := by
+  intro as
+  induction as with
+  | nil => intro pos kw _ _; simp [bindArgs]
+  | cons a as ih =>
+    intro pos kw hp hk
+    cases pos with
+    | cons p ps =>
+      simp only [bindArgs, hp p (by simp), ih ps kw (fun e he => hp e (by simp [he])) hk]
+    | nil =>
+      simp only [bindArgs]
+      cases hg : dget kw a with
+      | some e =>
+        simp only [hk (a, e) (dget_mem hg),
+          ih [] (derase kw a) (by simp) (fun p hp' => hk p (derase_subset kw a p hp'))]
+      | none => simp only [ih [] kw (by simp) hk]
+
+theorem bindKwonly_congr : ∀ (as : List Str) (kw : Dict),
+    (∀ p ∈ kw, evalExpr e1 p.2 = evalExpr e2 p.2) →
+    bindKwonly e1 spec as kw = bindKwonly e2 spec as kw := by
+  intro as
+  induction as with
+  | nil => intro kw _; simp [bindKwonly]
+  | cons a as ih =>
+    intro kw hk
+    simp only [bindKwonly]
+    cases hg : dget kw a with
+    | some e =>
+      simp only [hk (a, e) (dget_mem hg), ih (derase kw a) (fun p hp' => hk p (derase_subset kw a p hp'))]
+    | none => simp only [ih kw hk]
+
+theorem bindPhase_congr (pos : List Expr) (kw : Dict)
+    (hp : ∀ e ∈ pos, evalExpr e1 e = evalExpr e2 e) (hk : ∀ p ∈ kw, evalExpr e1 p.2 = evalExpr e2 p.2) :
+    bindPhase e1 spec pos kw = bindPhase e2 spec pos kw := by
+  unfold bindPhase
+  rw [← bindArgs_congr e1 e2 spec spec.args pos kw hp hk]
+  cases h1 : bindArgs e1 spec spec.args pos kw with
+  | error x => rfl
+  | ok r1 =>
+    obtain ⟨vs, left, kw1⟩ := r1
+    obtain ⟨s1, s2⟩ := bindArgs_left_subset spec e1 spec.args pos kw vs left kw1 h1
+    simp only []
+    rw [← bindKwonly_congr e1 e2 spec spec.kwonly kw1 (fun p hp' => hk p (s2 p hp'))]
+    cases h2 : bindKwonly e1 spec spec.kwonly kw1 with
+    | error x => rfl
+    | ok r2 =>
+      obtain ⟨kvs, kw2⟩ := r2
+      have s3 := bindKwonly_left_subset spec e1 spec.kwonly kw1 kvs kw2 h2
+      simp only []
+      rw [← evalAll_congr e1 e2 left (fun e he => hp e (s1 e he)),
+          ← evalKw_congr e1 e2 kw2 (fun p hp' => hk p (s2 p (s3 p hp')))]
+
+end congr
+
+theorem classify_dd : classify dd = .dashdash := by decide
+
+theorem classify_eq_dashdash (a : Str) (h : classify a = .dashdash) : a = dd := by
+  unfold classify at h
+  split at h
+  · cases h
+  split at h
+  · cases h
+  split at h
+  · split at h
+    · cases h
+    split at h
+    · rename_i h2; exact h2
+    · split at h; cases h
+  · cases h
+
+/-- the option loop hands everything after the first `--` over as literal strings, in order -/
+theorem scan_dashdash (env : Env) (spec : ArgSpec) (mode : Mode) (rest : List Str) :
+    ∀ (pre : List Str) (stdin : Str) (pending : Option Str) p occ, dd ∉ pre →
+      scan env spec mode (pre ++ dd :: rest) stdin pending = .ok (p, occ) →
+      ∃ p0, p = p0 ++ rest.map (fun x => Expr.user x .string) := by
+  intro pre
+  induction pre with
+  | nil =>
+    intro stdin pending p occ _ h
+    cases pending with
+    | some nm => simp [scan, dd] at h
+    | none =>
+      simp only [List.nil_append, scan, classify_dd, Except.ok.injEq, Prod.mk.injEq] at h
+      exact ⟨[], by simp [← h.1]⟩
+  | cons a pre ih =>
+    intro stdin pending p occ hnot h
+    have ha : a ≠ dd := fun e => hnot (by simp [e])
+    have hnot' : dd ∉ pre := fun e => hnot (by simp [e])
+    cases pending with
+    | some nm =>
+      simp only [List.cons_append, scan] at h
+      split at h
+      · cases h
+      · obtain ⟨k', hr, _⟩ := addKw_ok h
+        exact ih stdin none p k' hnot' hr
+    | none =>
+      simp only [List.cons_append, scan] at h
+      split at h
+      · cases h
+      · cases h
+      · obtain ⟨p', hr, rfl⟩ := addPos_ok h
+        obtain ⟨p0, rfl⟩ := ih [] none p' occ hnot' hr
+        exact ⟨Expr.user stdin .string :: p0, by simp⟩
+      · rename_i hc; exact absurd (classify_eq_dashdash a hc) ha
+      · split at h
+        · cases h
+        · rename_i m _
+          split at h
+          · exact ih stdin (some m) p occ hnot' h
+          · obtain ⟨k', hr, _⟩ := addKw_ok h
+            exact ih stdin none p k' hnot' hr
+      · obtain ⟨p', hr, rfl⟩ := addPos_ok h
+        obtain ⟨p0, rfl⟩ := ih stdin none p' occ hnot' hr
+        exact ⟨Expr.user a mode :: p0, by simp⟩
+
+theorem filter_eq_singleton {α : Type} (p : α → Bool) (n : α) :
+    ∀ (l : List α), l.Nodup → n ∈ l → p n = true → (∀ m ∈ l, p m = true → m = n) → l.filter p = [n] := by
+  intro l
+  induction l with
+  | nil => intro _ h; simp at h
+  | cons x xs ih =>
+    intro hnd hin hp hall
+    have hx : x ∉ xs := (List.nodup_cons.1 hnd).1
+    have hnd' := (List.nodup_cons.1 hnd).2
+    by_cases hxn : x = n
+    · subst hxn
+      have : xs.filter p = [] := by
+        apply List.filter_eq_nil_iff.2
+        intro m hm hpm
+        have := hall m (by simp [hm]) hpm
+        subst this; exact hx hm
+      simp [List.filter_cons, hp, this]
+    · have hin' : n ∈ xs := by
+        rcases List.mem_cons.1 hin with h | h
+        · exact absurd h.symm hxn
+        · exact h
+      have hpx : p x = false := by
+        cases hh : p x with
+        | false => rfl
+        | true => exact absurd (hall x (by simp) hh) hxn
+      simp [List.filter_cons, hpx, ih hnd' hin' hp (fun m hm => hall m (by simp [hm]))]
+
+theorem matched_eq (spec : ArgSpec) (n : Str) (hn : n ≠ []) :
+    matched spec n = spec.names.filter (fun a => n.isPrefixOf a) := by
+  unfold matched
+  apply List.filter_congr
+  intro a _
+  cases n with
+  | nil => exact absurd rfl hn
+  | cons c cs => simp
+
+theorem isPrefixOf_self (n : Str) : n.isPrefixOf n = true := by
+  induction n with
+  | nil => rfl
+  | cons c cs ih => simp [List.isPrefixOf, ih]
+
+/-- Where the code's prefix table and the property's reading of an option name coincide. -/
+theorem resolve_agree (env : Env) (spec : ArgSpec) (hwf : WF spec) (n m : Str) (eq : Bool) (hn : n ≠ [])
+    (hag : Agrees env spec n) (hres : resolveSpec spec n = some m)
+    (hnh : ¬ (eq = false ∧ (n = sHelp ∨ n = sH ∨ n = sSource) ∧ matched spec n = [])) :
+    resolveOpt env spec n eq = .bound m := by
+  unfold resolveSpec at hres
+  rw [← matched_eq spec n hn] at hres
+  unfold resolveOpt
+  simp only []
+  by_cases hin : n ∈ spec.names
+  · have hc : spec.names.contains n = true := by simpa using hin
+    rw [hc] at hres
+    simp only [if_true, Option.some.injEq] at hres
+    subst hres
+    have hmem : n ∈ matched spec n := by
+      rw [matched_eq spec n hn]
+      exact List.mem_filter.2 ⟨hin, isPrefixOf_self n⟩
+    cases hx : env.exactFirst with
+    | true =>
+      have : (matched spec n).contains n = true := by simpa using hmem
+      simp only [this, Bool.and_self, if_true]
+    | false =>
+      rcases hag with h | h
+      · rw [hx] at h; cases h
+      · have : matched spec n = [n] := by
+          rw [matched_eq spec n hn]
+          exact filter_eq_singleton _ n _ hwf.1 hin (isPrefixOf_self n) (h hin)
+        simp [this]
+  · have hc : spec.names.contains n = false := by simpa using hin
+    rw [hc] at hres
+    simp only [Bool.false_eq_true, if_false] at hres
+    have hnm : (matched spec n).contains n = false := by
+      cases hh : (matched spec n).contains n with
+      | false => rfl
+      | true =>
+        have : n ∈ matched spec n := by simpa using hh
+        exact absurd (List.mem_filter.1 this).1 hin
+    simp only [hnm, Bool.and_false, Bool.false_eq_true, if_false]
+    split at hres
+    · rename_i m' hm'
+      simp only [Option.some.injEq] at hres
+      subst hres
+      simp [hm']
+    · rename_i hm'
+      split at hres
+      · rename_i hv
+        simp only [Option.some.injEq] at hres
+        subst hres
+        rw [hm']
+        have h1 : (!eq && (decide (n = sHelp) || decide (n = sH))) = false := by
+          cases eq with
+          | true => simp
+          | false =>
+            cases hh : (decide (n = sHelp) || decide (n = sH)) with
+            | false => simp
+            | true =>
+              simp at hh
+              exact absurd ⟨rfl, by rcases hh with h | h <;> simp [h], hm'⟩ hnh
+        have h2 : (!eq && decide (n = sSource)) = false := by
+          cases eq with
+          | true => simp
+          | false =>
+            cases hh : decide (n = sSource) with
+            | false => simp
+            | true =>
+              simp at hh
+              exact absurd ⟨rfl, Or.inr (Or.inr hh), hm'⟩ hnh
+        simp only [h1, h2, Bool.false_eq_true, if_false, hv, if_true]
+      · cases hres
+    · cases hres
+
+theorem classify_pos (s : Str) (h : PlainPos s) : classify s = .pos := by
+  obtain ⟨h1, h2, h3⟩ := h
+  have h2' : s ∉ helpTokens := by simpa using h2
+  have h3' : s ∉ sourceTokens := by simpa using h3
+  simp [classify, h1, h2', h3']
+
+theorem classify_stdin : classify ['-'] = .stdin := by decide
+
+theorem classify_opt_eq (f : Form) (c : Char) (t' v : Str) (hc : c ≠ '?') (hd : f.dashes = ['-'] → c ≠ '-')
+    (hne : '=' ∉ c :: t') :
+    classify (f.dashes ++ (c :: t') ++ '=' :: v) = .opt (dashToUnderscore (c :: t')) true v := by
+  have hp := partitionEq_append (c :: t') v hne
+  cases f with
+  | ddEq | ddSp =>
+    simp only [Form.dashes, List.cons_append, List.nil_append] at hp ⊢
+    simp [classify, helpTokens, sourceTokens, hc, hp]
+  | dEq | dSp =>
+    have hc2 : c ≠ '-' := hd rfl
+    simp only [Form.dashes, List.cons_append, List.nil_append] at hp ⊢
+    simp [classify, helpTokens, sourceTokens, hc, hc2, Ne.symm hc2, hp]
+
+theorem classify_opt_sp (f : Form) (c : Char) (t' : Str) (hc : c ≠ '?') (hd : f.dashes = ['-'] → c ≠ '-')
+    (hne : '=' ∉ c :: t') :
+    classify (f.dashes ++ (c :: t')) = .opt (dashToUnderscore (c :: t')) false [] := by
+  have hp := partitionEq_noeq (c :: t') hne
+  cases f with
+  | ddEq | ddSp =>
+    simp only [Form.dashes, List.cons_append, List.nil_append] at hp ⊢
+    simp [classify, helpTokens, sourceTokens, hc, hp]
+  | dEq | dSp =>
+    have hc2 : c ≠ '-' := hd rfl
+    simp only [Form.dashes, List.cons_append, List.nil_append] at hp ⊢
+    simp [classify, helpTokens, sourceTokens, hc, hc2, Ne.symm hc2, hp]
+
+theorem optName_ok (env : Env) (spec : ArgSpec) (hwf : WF spec) (f : Form) (t v m : Str)
+    (h : OptOk env spec f t v m) (hag : Agrees env spec (dashToUnderscore t)) :
+    optName env spec (dashToUnderscore t) f.hasEq = .ok m := by
+  obtain ⟨c, t', rfl, _, _⟩ := h.first
+  have hn : dashToUnderscore (c :: t') ≠ [] := by simp [dashToUnderscore]
+  have := resolve_agree env spec hwf _ m f.hasEq hn hag h.resolves h.notHelp
+  simp [optName, h.ident, this]
+
+def renderItems : List Item → List Str
+  | [] => []
+  | it :: its => renderItem it ++ renderItems its
+
+def tailArgs : Option (List Str) → List Str
+  | none => []
+  | some r => dd :: r
+
+theorem render_eq (items : List Item) (tail : Option (List Str)) :
+    render items tail = renderItems items ++ tailArgs tail := by
+  induction items with
+  | nil => cases tail <;> simp [render, renderItems, tailArgs]
+  | cons it its ih => simp [render, renderItems, ih]
+
+/-- what is left of stdin after the `-` items -/
+def stdinAfter : List Item → Str → Str
+  | [], sin => sin
+  | .stdin :: r, _ => stdinAfter r []
+  | _ :: r, sin => stdinAfter r sin
+
+def prepend (q : Scanned) : Except PErr Scanned → Except PErr Scanned
+  | .error e => .error e
+  | .ok (p, k) => .ok (q.1 ++ p, q.2 ++ k)
+
+/-- **Printing then parsing is the identity**: a command line typed in the
+    documented forms is read by the option loop as exactly the positional
+    strings and keyword assignments it means — each option bound to the
+    parameter the property's own reading (`resolveSpec`) gives — and the loop
+    then continues with whatever follows. -/
+theorem scan_items (env : Env) (spec : ArgSpec) (hwf : WF spec) (mode : Mode) (rest : List Str) :
+    ∀ (items : List Item) (stdin : Str),
+      (∀ it ∈ items, ItemOk env spec it) →
+      (∀ f t v, Item.opt f t v ∈ items → Agrees env spec (dashToUnderscore t)) →
+      scan env spec mode (renderItems items ++ rest) stdin none =
+        prepend (expectScan spec mode items stdin) (scan env spec mode rest (stdinAfter items stdin) none) := by
+  intro items
+  induction items with
+  | nil =>
+    intro stdin _ _
+    simp only [renderItems, List.nil_append, expectScan, stdinAfter]
+    cases scan env spec mode rest stdin none with
+    | error e => rfl
+    | ok r => rfl
+  | cons it its ih =>
+    intro stdin hok hag
+    have hok' : ∀ it ∈ its, ItemOk env spec it := fun x hx => hok x (by simp [hx])
+    have hag' : ∀ f t v, Item.opt f t v ∈ its → Agrees env spec (dashToUnderscore t) :=
+      fun f t v hx => hag f t v (by simp [hx])
+    cases it with
+    | pos s =>
+      have hp : PlainPos s := hok (.pos s) (by simp)
+      simp only [renderItems, renderItem, List.cons_append, List.nil_append, scan, classify_pos s hp,
+        ih stdin hok' hag', expectScan, stdinAfter]
+      cases scan env spec mode rest (stdinAfter its stdin) none with
+      | error e => rfl
+      | ok r => rfl
+    | stdin =>
+      simp only [renderItems, renderItem, List.cons_append, List.nil_append, scan, classify_stdin,
+        ih [] hok' hag', expectScan, stdinAfter]
+      cases scan env spec mode rest (stdinAfter its []) none with
+      | error e => rfl
+      | ok r => rfl
+    | opt f t v =>
+      obtain ⟨m, hm⟩ : ItemOk env spec (.opt f t v) := hok _ (by simp)
+      have hagt := hag f t v (by simp)
+      have hopt := optName_ok env spec hwf f t v m hm hagt
+      obtain ⟨c, t', rfl, hc, hd⟩ := hm.first
+      have hval := hm.value
+      cases hf : f.hasEq with
+      | true =>
+        rw [hf] at hopt
+        simp only [hf, if_true] at hval
+        have hve : v.isEmpty = false := by cases v <;> simp at hval ⊢
+        simp only [renderItems, renderItem, hf, if_true, List.cons_append, List.nil_append, scan,
+          classify_opt_eq f c t' v hc hd hm.noEq, hopt, hve, Bool.false_eq_true, if_false,
+          ih stdin hok' hag', expectScan, hm.resolves, Option.getD_some, stdinAfter]
+        cases scan env spec mode rest (stdinAfter its stdin) none with
+        | error e => rfl
+        | ok r => rfl
+      | false =>
+        rw [hf] at hopt
+        simp only [hf, Bool.false_eq_true, if_false] at hval
+        have hval' : (['-','-'] : Str).isPrefixOf v = false := hval
+        simp only [renderItems, renderItem, hf, Bool.false_eq_true, if_false, List.cons_append, List.nil_append,
+          scan, classify_opt_sp f c t' hc hd hm.noEq, hopt, List.isEmpty_nil, if_true, hval',
+          ih stdin hok' hag', expectScan, hm.resolves, Option.getD_some, stdinAfter]
+        cases scan env spec mode rest (stdinAfter its stdin) none with
+        | error e => rfl
+        | ok r => rfl
+
+theorem scan_tailArgs (env : Env) (spec : ArgSpec) (mode : Mode) (tail : Option (List Str)) (stdin : Str) :
+    scan env spec mode (tailArgs tail) stdin none = .ok (tailLits tail, []) := by
+  cases tail with
+  | none => simp [tailArgs, scan, tailLits]
+  | some r => simp [tailArgs, scan, classify_dd, tailLits]
+
+theorem scan_render (env : Env) (spec : ArgSpec) (hwf : WF spec) (mode : Mode) (tail : Option (List Str))
+    (items : List Item) (stdin : Str) (hok : ∀ it ∈ items, ItemOk env spec it)
+    (hag : ∀ f t v, Item.opt f t v ∈ items → Agrees env spec (dashToUnderscore t)) :
+    scan env spec mode (render items tail) stdin none =
+      .ok ((expectScan spec mode items stdin).1 ++ tailLits tail, (expectScan spec mode items stdin).2) := by
+  rw [render_eq, scan_items env spec hwf mode _ items stdin hok hag, scan_tailArgs]
+  simp [prepend]
+
+theorem resolveOpt_ambiguous (env : Env) (spec : ArgSpec) (n : Str) (eq : Bool) (hn : n ≠ [])
+    (hnot : n ∉ spec.names) (m1 m2 : Str) (r : List Str)
+    (hf : spec.names.filter (fun a => n.isPrefixOf a) = m1 :: m2 :: r) :
+    resolveOpt env spec n eq = .err .ambiguous := by
+  unfold resolveOpt
+  rw [← matched_eq spec n hn] at hf
+  have hnm : (matched spec n).contains n = false := by
+    cases hh : (matched spec n).contains n with
+    | false => rfl
+    | true =>
+      have : n ∈ matched spec n := by simpa using hh
+      exact absurd (List.mem_filter.1 this).1 hnot
+  rw [hf] at hnm
+  simp only [hf, hnm, Bool.and_false, Bool.false_eq_true, if_false]
+
+theorem resolveOpt_unknown (env : Env) (spec : ArgSpec) (n : Str) (eq : Bool) (hn : n ≠ [])
+    (hf : spec.names.filter (fun a => n.isPrefixOf a) = []) (hv : spec.varkw = false)
+    (hnh : ¬ (eq = false ∧ (n = sHelp ∨ n = sH ∨ n = sSource))) :
+    resolveOpt env spec n eq = .err .unknownOption := by
+  unfold resolveOpt
+  rw [← matched_eq spec n hn] at hf
+  have h1 : (!eq && (decide (n = sHelp) || decide (n = sH))) = false := by
+    cases eq with
+    | true => simp
+    | false =>
+      cases hh : (decide (n = sHelp) || decide (n = sH)) with
+      | false => simp
+      | true =>
+        simp at hh
+        exact absurd ⟨rfl, by rcases hh with h | h <;> simp [h]⟩ hnh
+  have h2 : (!eq && decide (n = sSource)) = false := by
+    cases eq with
+    | true => simp
+    | false =>
+      cases hh : decide (n = sSource) with
+      | false => simp
+      | true =>
+        simp at hh
+        exact absurd ⟨rfl, Or.inr (Or.inr hh)⟩ hnh
+  simp only [hf, List.contains_nil, Bool.and_false, Bool.false_eq_true, if_false, h1, h2, hv]
+
+/-- the option loop fails at a badly named option exactly with the error of that name -/
+theorem scan_bad_option (env : Env) (spec : ArgSpec) (hwf : WF spec) (mode : Mode)
+    (its1 : List Item) (f : Form) (t v : Str) (rest : List Str) (stdin : Str) (e : PErr)
+    (hok : ∀ it ∈ its1, ItemOk env spec it)
+    (hag : ∀ f t v, Item.opt f t v ∈ its1 → Agrees env spec (dashToUnderscore t))
+    (hsyn : OptSyntax env f t)
+    (hres : resolveOpt env spec (dashToUnderscore t) f.hasEq = .err e) :
+    scan env spec mode (renderItems its1 ++ (renderItem (.opt f t v) ++ rest)) stdin none = .error e := by
+  rw [scan_items env spec hwf mode _ its1 stdin hok hag]
+  obtain ⟨c, t', rfl, hc, hd⟩ := hsyn.first
+  have hopt : optName env spec (dashToUnderscore (c :: t')) f.hasEq = .error e := by
+    simp [optName, hsyn.ident, hres]
+  cases hf : f.hasEq with
+  | true =>
+    rw [hf] at hopt
+    simp only [renderItem, hf, if_true, List.cons_append, List.nil_append, scan,
+      classify_opt_eq f c t' v hc hd hsyn.noEq, hopt, prepend]
+  | false =>
+    rw [hf] at hopt
+    simp only [renderItem, hf, Bool.false_eq_true, if_false, List.cons_append, List.nil_append, scan,
+      classify_opt_sp f c t' hc hd hsyn.noEq, hopt, prepend]
+
+theorem render_split (its1 : List Item) (it : Item) (its2 : List Item) (tail : Option (List Str)) :
+    render (its1 ++ it :: its2) tail = renderItems its1 ++ (renderItem it ++ render its2 tail) := by
+  induction its1 with
+  | nil => simp [render, renderItems]
+  | cons x xs ih => simp [render, renderItems, ih]
+
+theorem globalOpts_suffix_aux : ∀ (n : Nat) (argv : List Str) (m : Option AMode) (o : GOut), argv.length ≤ n →
+    globalOpts argv m = .ok o → ∃ pre, argv = pre ++ o.rest := by
+  intro n
+  induction n with
+  | zero =>
+    intro argv m o hl h
+    have : argv = [] := List.length_eq_zero_iff.1 (by omega)
+    subst this
+    simp [globalOpts] at h
+    exact ⟨[], by simp [← h]⟩
+  | succ n ih =>
+    intro argv m o hl h
+    cases argv with
+    | nil => simp [globalOpts] at h; exact ⟨[], by simp [← h]⟩
+    | cons arg rest =>
+      simp only [globalOpts] at h
+      split at h
+      · simp at h; exact ⟨[], by simp [← h]⟩
+      · simp at h; exact ⟨[arg], by simp [← h]⟩
+      · cases h
+      · obtain ⟨pre, hp⟩ := ih rest _ o (by simp at hl; omega) h
+        exact ⟨arg :: pre, by simp [← hp]⟩
+      · split at h
+        · cases h
+        · rename_i v rest'
+          split at h
+          · cases h
+          · obtain ⟨pre, hp⟩ := ih rest' _ o (by simp at hl; omega) h
+            exact ⟨arg :: v :: pre, by simp [← hp]⟩
 
 end Pfb.C15
